@@ -275,8 +275,9 @@ func peerScenario(r *vh.Rand, steps int) (evs []event, notes map[string]int) {
 	return evs, notes
 }
 
-func genPeerCases(r *vh.Rand, w *vh.LineWriter, n int) map[string]int {
+func genPeerCases(r *vh.Rand, w *vh.LineWriter, n int) (map[string]int, [][]event) {
 	total := map[string]int{}
+	var traces [][]event
 	for i := 0; i < n; i++ {
 		evs, notes := peerScenario(r, 30+r.Intn(40))
 		for k, v := range notes {
@@ -286,7 +287,8 @@ func genPeerCases(r *vh.Rand, w *vh.LineWriter, n int) map[string]int {
 			continue
 		}
 		w.Printf("U%d live peer=raft.Peer | %s\n", i, eventsStr(evs))
+		traces = append(traces, evs)
 	}
 	_ = fmt.Sprint
-	return total
+	return total, traces
 }
